@@ -41,6 +41,29 @@ fn main() {
             rep.machinery_error = Some(format!("xcdrcheck: unknown check {other}"));
         }
     }
+    // Deviations from the REFERENCE that are not violations of the properties (the reference is one reading of the
+    // standard; these points are read differently by different vendors or are not fixed by the property text):
+    //  - wstring: length as UTF-16 unit count including a NUL unit + NUL terminator (dust-dds) vs byte length without
+    //    NUL (reference); rule (4) is read both ways, the round trip (C09) holds either way;
+    //  - key hash: property C12 says "big-endian XCDR serialization of the key members" without fixing the XCDR version
+    //    or the member order; dust-dds consistently uses the version 1 alignment and declaration order.
+    // Findings whose only named cause is one of these are recorded as accepted alternatives, not as findings.
+    const ACCEPTED: [&str; 4] = ["wstring-unit-count-with-nul", "expects-wstring-unit-count-with-nul", "xcdr1-alignment", "declaration-order"];
+    let mut accepted: std::collections::BTreeMap<String, u64> = Default::default();
+    rep.findings.retain(|f| {
+        let sig = f["sig"].as_str().unwrap_or("").to_string();
+        let hit = sig.split('/').any(|part| !part.is_empty() && part.split('+').all(|n| ACCEPTED.contains(&n)));
+        if hit {
+            *accepted.entry(sig).or_insert(0) += 1;
+        }
+        !hit
+    });
+    for sig in accepted.keys() {
+        rep.distinct(format!("accepted-alternative/{sig}"));
+    }
+    if !accepted.is_empty() {
+        rep.set("accepted_alternatives", vutil::serde_json::json!(accepted));
+    }
     rep.set("wall_ms", vutil::serde_json::json!(t0.elapsed().as_millis() as u64));
     rep.write(&args);
 }
